@@ -300,7 +300,7 @@ def check(tier: str, seed: int, replay: str | None = None) -> int:
         'correspondence_mismatches': len(mism),
         'rule': 'random (batch_size, wait, arrival-time gaps around the wait, end-marker style/position) cases from one '
                 'PRNG seeded by VERIF_SEED, corpus first; each is run on the real EagerBatcher over a virtual-time queue and '
-                'on the Coq model (vm_compute), outputs (batches, emit times, clock at which each batch's first item left the queue, finished?) compared; non-trivial = at least two '
+                'on the Coq model (vm_compute), outputs (batches, emit times, clock at which the first item of each batch left the queue, finished?) compared; non-trivial = at least two '
                 'batches and at least one short batch; distinct = distinct input',
         'input_distribution': {'batch_size': dist, **reasons},
         'samples': [{'case': r['case'], 'observed': r['obs']} for r in results[:3]],
